@@ -79,7 +79,9 @@ def check_c08(tier):
 
 
 def _neg_full(rep, pid, cases):
-    good = [c for c in cases.values() if not c["writeerr"] and len(c["file"]) < 3000 and c["signerr"] == ""][0]
+    import re
+    good = [c for c in cases.values() if not c["writeerr"] and len(c["file"]) < 3000 and c["signerr"] == ""
+            and re.match(r"^https://[A-Za-z0-9.:-]+/[A-Za-z0-9._~/?=-]*$", txt(c["x"]["uri"]))][0]
     b1 = json.loads(json.dumps(good)); b1["case"] = "neg1"; b1["msg"][70] ^= 1
     b2 = json.loads(json.dumps(good)); b2["case"] = "neg2"; b2["file"][12] ^= 1
     b3 = json.loads(json.dumps(good)); b3["case"] = "neg3"; b3["verifs"][0]["ok"] = not b3["verifs"][0]["ok"]
